@@ -494,6 +494,8 @@ type KeyInfo struct {
 	Ghost string // sort, for ghost keys
 	// FreshOnly: the function only writes this heap at objects it allocated itself
 	FreshOnly bool
+	// VisitedOf: ghost "visited" set of a map range iterator over this map type
+	VisitedOf *types.Map
 }
 
 type ModSet struct {
@@ -533,6 +535,11 @@ func (m *ModSet) union(o *ModSet) bool {
 
 func (v *FnVerifier) ensureKey(ki KeyInfo) {
 	switch {
+	case ki.VisitedOf != nil:
+		if _, ok := v.reg.sort[ki.Key]; !ok {
+			v.reg.sort[ki.Key] = "(Array " + v.smt.sortOf(ki.VisitedOf.Key()) + " Bool)"
+			v.reg.dims[ki.Key] = -1
+		}
 	case ki.Map != nil:
 		v.mapKeys(ki.Map)
 	case ki.Ghost != "":
